@@ -136,9 +136,14 @@ func consume(log *joinLog, t0 time.Time, out <-chan []int, js joinScenario, rele
 			}
 		} else {
 			// the consumer owns a copy-mode slice: overwrite it, later outputs must not be affected
-			for i := range s {
-				s[i] = scribble
+			// (the whole capacity: what an append by the consumer may write to)
+			full := s[:cap(s)]
+			for i := range full {
+				full[i] = scribble
 			}
+			log.mu.Lock()
+			log.outs[len(log.outs)-1].kept = full
+			log.mu.Unlock()
 		}
 		if pause > 0 {
 			select {
@@ -254,7 +259,13 @@ func runJoinBubble(js joinScenario) result {
 		next := 1
 		for _, p := range js.prod {
 			time.Sleep(time.Duration(p[0]))
-			vals := make([]int, p[1], int(p[1])+js.capExtra)
+			// capExtra < 0: no spare capacity and an empty input slice is a nil slice (an ordinary empty slice)
+			var vals []int
+			if js.capExtra >= 0 {
+				vals = make([]int, p[1], int(p[1])+js.capExtra)
+			} else if p[1] > 0 {
+				vals = make([]int, p[1])
+			}
 			for i := range vals {
 				vals[i] = next
 				next++
